@@ -1,4 +1,6 @@
 """C18: a device failure or interrupt stops the run at a consistent point (fault enumeration per program)."""
+import re
+
 from .. import enginecamp as ec
 from .. import framework as fw
 from .. import imagegen as ig
@@ -60,9 +62,73 @@ def coq_fcase_eng(case, res):
             f'{case.get("last_ops") or 0}')
 
 
+HEADER_SIG = ('From FJ Require Import Lib.Base Spec.MachineSpec Model.RunCase Model.SignalCase.\n'
+              'Local Open Scope N_scope.\n')
+
+
+def signal_family(ctx, so, n):
+    """asynchronous interrupts: never-halting programs; a real signal (SIGALRM, handler raises KeyboardInterrupt) is armed
+    from inside one of the first device calls and arrives a fraction of a millisecond later, while the engine runs.
+    Judged by Model/SignalCase.v (theorem C18_signal_verdict_sound): everything observed must be the machine's state
+    after exactly the reported number of ops."""
+    rng = ctx.rng
+    cases = []
+    for _ in range(n):
+        w, segs, tags, n_out = ig.cycle_program(rng, rng.choice([16, 32, 64, 64]))
+        for eng in ('featured', 'fast', 'native', 'native'):
+            native = eng == 'native'
+            cases.append({'w': w, 'segs': segs, 'input': '', 'version': 1, 'engine': eng, 'watchdog': 4.0,
+                          'tags': tags + ['signal'], 'read_mem': c07.mem_addresses(segs), 'fail_at': -1, 'kind': 'kbd',
+                          'last_ops': rng.choice([3, 5, 100, None]), 'no_flat': native and rng.random() < 0.4,
+                          'signal_after': rng.uniform(0.0002, 0.0008) if native else rng.uniform(0.0005, 0.004),
+                          'signal_at_call': rng.randrange(n_out)})
+    chunks = [cases[i::fw.NCPU] for i in range(fw.NCPU)]
+    chunks = [c for c in chunks if c]
+    outs = fw.run_workers_parallel(ctx, 'faults', chunks, extra_env={'FJVERIF_FJCORE_SO': str(so)})
+    pairs = []
+    for ch, o in zip(chunks, outs):
+        pairs += list(zip(ch, o))
+    terms, idx = [], []
+    for i, (c, r) in enumerate(pairs):
+        ctx.count(('signal', c['w'], c['segs'], c['engine'], c['last_ops'], c['no_flat'], round(c['signal_after'], 6)), True)
+        if r.get('outcome') != 'stats' or r.get('cause') != 6:
+            ctx.hist('signal_verdict', f"{c['engine']}:wrong-outcome")
+            ctx.violation({'kind': 'wrong-outcome', 'engine': c['engine'], 'device_exc': 'signal', 'got': str(r.get('outcome', '')).split(':')[0]},
+                          f"an interrupt signal during a run under the {c['engine']} engine: outcome {r.get('outcome')} cause={r.get('cause')}, "
+                          f"required a keyboard-interrupt termination", {'case': c, 'observed': r})
+            continue
+        ctx.hist('signal_ops_log2', f"{c['engine']}:{max(r.get('ops') or 0, 1).bit_length()}")
+        if (r.get('ops') or 0) > (3 << 20):
+            ctx.hist('signal_verdict', f"{c['engine']}:not-evaluated(too many ops)")
+            continue
+        r2 = dict(r, cause=0)
+        terms.append(ec.coq_case(c, r2, fuel=0))
+        idx.append(i)
+    oks = fw.coq_eval_shards(ctx, 'c18sig', HEADER_SIG, terms, 'fun c => check_signal_case c =? 0', shard=4)
+    for k, ok, term in zip(idx, oks, terms):
+        c, r = pairs[k]
+        v = 0 if ok else None
+        if ok is False:
+            rc, txt = fw.coq_eval_term(ctx, f'c18sig_v{k}', HEADER_SIG, f'check_signal_case ({term})')
+            m = re.search(r'=\s*(\d+)', txt)
+            v = int(m.group(1)) if rc == 0 and m else 2
+        name = {0: 'consistent', 1: 'mid-op', 2: 'inconsistent', 3: 'machine-halts-earlier'}.get(v, 'not-evaluated')
+        ctx.hist('signal_verdict', f"{c['engine']}:{name}")
+        if v in (None, 0):
+            continue
+        kind = 'async-interrupt-mid-op' if v == 1 else 'async-interrupt-inconsistent'
+        ctx.violation({'kind': kind, 'engine': c['engine']},
+                      f"interrupt signal during a run ({c['engine']} engine, w={c['w']}): reported ops={r.get('ops')} "
+                      f"last_ops={r.get('last_ops')} but the memory/output/last-ops read back are "
+                      f"{'those of a stop INSIDE the next op (some of its effects are visible)' if v == 1 else 'not a state of the machine at that op count'}",
+                      {'case': c, 'observed': r})
+    return len(pairs)
+
+
 def run(ctx):
     fw.static_proofs(ctx, ['Properties/C18.v', 'Properties/C18_engines.v'])
     so = fw.build_fjcore(ctx)
+    n_sig = signal_family(ctx, so, ctx.n(6, 60))
     progs = io_programs(ctx, ctx.n(60, 1500), so)
     cases = []
     for c, calls in progs:
@@ -149,5 +215,9 @@ def run(ctx):
                             'compared with Model/Faults.v evaluated in Coq, and with the engine fault model of the case\'s engine '
                             '(Model/EngPyFaults.v featured/fast loop, Model/EngNativeFaults.v flat/paged/ring loop incl. '
                             'last_run_op_count and last_run_last_ops) evaluated in Coq on the same case')
-    ctx.assumptions += ['asynchronous signal delivery (SIGINT at an arbitrary instruction) is a runtime behaviour the model cannot exhibit: '
-                        'only device-raised KeyboardInterrupt is enumerated; partial for that part of the property']
+    ctx.coverage['rule'] += (f'; asynchronous interrupts: {n_sig} runs of never-halting programs (aligned and unaligned cycles, '
+                             'near and far scratch) x 3 engines with a real signal arriving 0.2-4 ms after a device call; '
+                             'the reported op count, output, last-ops list and memory are compared with the machine after '
+                             'exactly that many ops (Model/SignalCase.v, C18_signal_verdict_sound)')
+    ctx.assumptions += ['asynchronous signal delivery is sampled at random instants, not enumerated (the instant a signal lands is '
+                        'a runtime behaviour the model cannot exhibit); every sampled stop is judged by the machine definition']
